@@ -2,6 +2,8 @@
 
 mod c01;
 mod c01p;
+mod c03;
+mod c13;
 mod fsmodel;
 
 fn main() {
@@ -30,6 +32,8 @@ fn main() {
     }
     let code = match prop {
         "C01" => c01::run(&tier, replay.as_deref()),
+        "C13" => c13::run(&tier, replay.as_deref()),
+        "C03" => c03::run(&tier, replay.as_deref()),
         _ => {
             eprintln!("crashmc: unknown property {prop}");
             2
